@@ -38,6 +38,7 @@ import (
 	"os/exec"
 	"path/filepath"
 	"reflect"
+	"sort"
 	"strconv"
 	"strings"
 	"time"
@@ -164,22 +165,33 @@ func run2[A, B any](t []E2[A, B]) {
 }
 `
 
+// oracleFnsPerProgram: the oracle is split into several `package main` programs (<dir>/pNN) of at most about this many
+// function literals: one package of 50 000 literals (thorough tier) keeps a single, mostly single-threaded `compile`
+// process busy for more than 45 minutes and 6 GB, whereas `go build ./...` compiles the programs in parallel.
+const oracleFnsPerProgram = 2500
+
 func (g *Gen) writeOracle(dir string) error {
 	if err := os.RemoveAll(dir); err != nil {
 		return err
 	}
-	if err := os.MkdirAll(dir, 0o755); err != nil {
+	if err := os.MkdirAll(filepath.Join(dir, "bin"), 0o755); err != nil {
 		return err
 	}
-	files := map[string]string{"go.mod": "module c02oracle\n\ngo 1.18\n", "canon.go": canonSrc}
-	type table struct {
+	if err := os.WriteFile(filepath.Join(dir, "go.mod"), []byte("module c02oracle\n\ngo 1.18\n"), 0o644); err != nil {
+		return err
+	}
+	// a part = at most 700 rows of one table (a table = the programs with the same parameter types)
+	type part struct {
 		name, typ, run string
 		rows           []string
+		sets           []string
+	}
+	type table struct {
+		name, typ, run string
+		rows, sets     []string
 	}
 	tabs := map[string]*table{}
 	var order []string
-	var sets strings.Builder
-	sets.WriteString("package main\n\nimport \"math\"\n\nvar _ = math.Pi\n\n")
 	for _, f := range g.fns {
 		if f.ExpectCE {
 			continue
@@ -196,84 +208,94 @@ func (g *Gen) writeOracle(dir string) error {
 			order = append(order, key)
 		}
 		t.rows = append(t.rows, fmt.Sprintf("\t{%d, s%d, %s},\n", f.ID, f.ID, f.Src))
+		var set strings.Builder
 		if len(f.Params) == 1 {
-			fmt.Fprintf(&sets, "var s%d = []%s{", f.ID, f.Params[0].Name)
+			fmt.Fprintf(&set, "var s%d = []%s{", f.ID, f.Params[0].Name)
 			for i, r := range f.Rows {
 				if i > 0 {
-					sets.WriteString(", ")
+					set.WriteString(", ")
 				}
-				sets.WriteString(r[0].DataLit())
+				set.WriteString(r[0].DataLit())
 			}
-			sets.WriteString("}\n")
+			set.WriteString("}\n")
 		} else {
-			fmt.Fprintf(&sets, "var s%d = []P2[%s, %s]{", f.ID, f.Params[0].Name, f.Params[1].Name)
+			fmt.Fprintf(&set, "var s%d = []P2[%s, %s]{", f.ID, f.Params[0].Name, f.Params[1].Name)
 			for i, r := range f.Rows {
 				if i > 0 {
-					sets.WriteString(", ")
+					set.WriteString(", ")
 				}
-				sets.WriteString("{" + r[0].DataLit() + ", " + r[1].DataLit() + "}")
+				set.WriteString("{" + r[0].DataLit() + ", " + r[1].DataLit() + "}")
 			}
-			sets.WriteString("}\n")
+			set.WriteString("}\n")
 		}
+		t.sets = append(t.sets, set.String())
 	}
-	files["sets.go"] = sets.String()
-	var sb strings.Builder
-	sb.WriteString("package main\n\nimport (\n\t\"bufio\"\n\t\"fmt\"\n\t\"os\"\n)\n")
-	sb.WriteString(oracleRuntime)
-	sb.WriteString(showSrc)
-	sb.WriteString("\n" + globalDecls())
-	sb.WriteString("\nfunc main() {\n")
-	for _, key := range order {
-		fmt.Fprintf(&sb, "\t%s(%s)\n", tabs[key].run, tabs[key].name)
-	}
-	sb.WriteString("\tout.Flush()\n}\n")
-	files["main.go"] = sb.String()
-	sb.Reset()
-	nfile, nrows := 0, 0
-	flush := func() {
-		if sb.Len() > 0 {
-			files[fmt.Sprintf("fns_%03d.go", nfile)] = "package main\n\n" + sb.String()
-			nfile++
-			sb.Reset()
-			nrows = 0
-		}
-	}
+	var parts []*part
 	for _, key := range order {
 		t := tabs[key]
-		// a table may be split over several files: t_x = append(t_x, ...) is avoided by numbering the parts
-		part := 0
-		for i := 0; i < len(t.rows); i += 700 {
+		for i, n := 0, 0; i < len(t.rows); i, n = i+700, n+1 {
 			j := i + 700
 			if j > len(t.rows) {
 				j = len(t.rows)
 			}
-			name := t.name
-			if part > 0 {
-				name = fmt.Sprintf("%s_p%d", t.name, part)
-			}
-			fmt.Fprintf(&sb, "var %s = []%s{\n", name, t.typ)
-			for _, r := range t.rows[i:j] {
-				sb.WriteString(r)
-			}
-			sb.WriteString("}\n\n")
-			nrows += j - i
-			if nrows > 700 {
-				flush()
-			}
-			part++
-		}
-		if part > 1 {
-			// main() must run every part
-			var calls strings.Builder
-			for p := 1; p < part; p++ {
-				fmt.Fprintf(&calls, "\t%s(%s_p%d)\n", t.run, t.name, p)
-			}
-			files["main.go"] = strings.Replace(files["main.go"], fmt.Sprintf("\t%s(%s)\n", t.run, t.name), fmt.Sprintf("\t%s(%s)\n", t.run, t.name)+calls.String(), 1)
+			parts = append(parts, &part{name: fmt.Sprintf("%s_p%d", t.name, n), typ: t.typ, run: t.run, rows: t.rows[i:j], sets: t.sets[i:j]})
 		}
 	}
-	flush()
-	for name, content := range files {
-		if err := os.WriteFile(filepath.Join(dir, name), []byte(content), 0o644); err != nil {
+	// distribute the parts over the programs
+	nprog := 0
+	writeProgram := func(ps []*part) error {
+		pdir := filepath.Join(dir, fmt.Sprintf("p%02d", nprog))
+		nprog++
+		if err := os.MkdirAll(pdir, 0o755); err != nil {
+			return err
+		}
+		files := map[string]string{"canon.go": canonSrc}
+		var sets, sb strings.Builder
+		sets.WriteString("package main\n\nimport \"math\"\n\nvar _ = math.Pi\n\n")
+		sb.WriteString("package main\n\nimport (\n\t\"bufio\"\n\t\"fmt\"\n\t\"os\"\n)\n")
+		sb.WriteString(oracleRuntime)
+		sb.WriteString(showSrc)
+		sb.WriteString("\n" + globalDecls())
+		sb.WriteString("\nfunc main() {\n")
+		for _, p := range ps {
+			fmt.Fprintf(&sb, "\t%s(%s)\n", p.run, p.name)
+			for _, st := range p.sets {
+				sets.WriteString(st)
+			}
+		}
+		sb.WriteString("\tout.Flush()\n}\n")
+		files["main.go"] = sb.String()
+		files["sets.go"] = sets.String()
+		for i, p := range ps {
+			var fb strings.Builder
+			fmt.Fprintf(&fb, "package main\n\nvar %s = []%s{\n", p.name, p.typ)
+			for _, r := range p.rows {
+				fb.WriteString(r)
+			}
+			fb.WriteString("}\n")
+			files[fmt.Sprintf("fns_%03d.go", i)] = fb.String()
+		}
+		for name, content := range files {
+			if err := os.WriteFile(filepath.Join(pdir, name), []byte(content), 0o644); err != nil {
+				return err
+			}
+		}
+		return nil
+	}
+	var cur []*part
+	n := 0
+	for _, p := range parts {
+		if n > 0 && n+len(p.rows) > oracleFnsPerProgram {
+			if err := writeProgram(cur); err != nil {
+				return err
+			}
+			cur, n = nil, 0
+		}
+		cur = append(cur, p)
+		n += len(p.rows)
+	}
+	if len(cur) > 0 {
+		if err := writeProgram(cur); err != nil {
 			return err
 		}
 	}
@@ -294,23 +316,33 @@ func goEnv() []string {
 func runOracle(dir string) *oracleResult {
 	res := &oracleResult{lines: map[[2]int]string{}}
 	t0 := time.Now()
-	bin := filepath.Join(dir, "oracle.bin")
-	cmd := exec.Command("go", "build", "-o", bin, ".")
+	// all programs <dir>/pNN of the module in one go build: the packages are compiled in parallel
+	cmd := exec.Command("go", "build", "-o", filepath.Join(dir, "bin")+string(filepath.Separator), "./...")
 	cmd.Dir, cmd.Env = dir, goEnv()
 	if o, err := cmd.CombinedOutput(); err != nil {
-		res.err, res.stderr = fmt.Errorf("go build of the oracle program failed: %v", err), string(o)
+		res.err, res.stderr = fmt.Errorf("go build of the oracle programs failed: %v", err), string(o)
 		return res
 	}
 	res.buildS = time.Since(t0).Seconds()
 	t0 = time.Now()
-	run := exec.Command(bin)
-	run.Dir = dir
-	var eb strings.Builder
-	run.Stderr = &eb
-	o, err := run.Output()
-	if err != nil {
-		res.err, res.stderr = fmt.Errorf("the oracle program failed: %v", err), eb.String()
+	progs, _ := filepath.Glob(filepath.Join(dir, "p[0-9]*"))
+	sort.Strings(progs)
+	if len(progs) == 0 {
+		res.err = fmt.Errorf("no oracle program was written")
 		return res
+	}
+	var o []byte
+	for _, p := range progs {
+		run := exec.Command(filepath.Join(dir, "bin", filepath.Base(p)))
+		run.Dir = dir
+		var eb strings.Builder
+		run.Stderr = &eb
+		po, err := run.Output()
+		if err != nil {
+			res.err, res.stderr = fmt.Errorf("the oracle program %s failed: %v", filepath.Base(p), err), eb.String()
+			return res
+		}
+		o = append(o, po...)
 	}
 	res.runS = time.Since(t0).Seconds()
 	os.WriteFile(filepath.Join(dir, "output.txt"), o, 0o644)
